@@ -647,27 +647,44 @@ EXTERN int _decomp_s(wchar_t *restrict dest, rsize_t dmax, const uint32_t cp,
 #endif /* SAFECLIB_DISABLE_WCHAR */
 
 /* Finds the first %n conversion of a printf (is_scanf == 0) or scanf format, however it is spelled:
-   after any number of %% pairs and with any flags, '*', field width, precision, positional argument or
-   length modifier ("%%%n", "%ln", "%hhn", "%5n", "%1$n", "%*n").  A plain search for the substring "%n" sees
-   none of these.  Returns a pointer to the '%' of that directive, or NULL. */
+   after any number of complete directives (also "%%", "%5%", "%h%") and with any flags, '*', field width,
+   precision, positional argument or length modifier ("%%%n", "%ln", "%hhn", "%5n", "%1$n", "%*n", "%lh%n").
+   A plain search for the substring "%n" sees none of these.  The directive grammar is the one libc applies
+   (flags/width/precision, then at most one length modifier, then exactly one conversion character), so that a
+   directive is never taken for longer or shorter than libc takes it.  Returns a pointer to the '%' of the n
+   directive, or NULL. */
 static inline char *safec_fmt_find_n(const char *fmt, int is_scanf) {
     const char *p = fmt;
     while (*p) {
         const char *start;
         if (*p++ != '%')
             continue;
-        if (*p == '%') {
-            p++;
-            continue;
-        }
         start = p - 1;
-        /* flags, '*', width, precision, positional argument and length modifiers (incl. glibc's I, ', Z, q and
-           C23's wN), in any order: everything that can stand between '%' and the conversion character */
-        while (*p == '-' || *p == '+' || *p == ' ' || *p == '#' || *p == '0' || *p == '*' || *p == '\'' ||
-               *p == '.' || *p == '$' || *p == 'I' || (*p >= '1' && *p <= '9') || (is_scanf && *p == 'm') ||
-               *p == 'h' || *p == 'l' || *p == 'L' || *p == 'q' || *p == 'j' || *p == 'z' || *p == 't' ||
-               *p == 'Z' || *p == 'w')
+        /* flags, '*', field width, precision, positional argument: none of these can be a conversion */
+        while (*p == '-' || *p == '+' || *p == ' ' || *p == '#' || *p == '0' || *p == '*' ||
+               *p == '\'' || *p == '.' || *p == '$' || *p == 'I' || (*p >= '1' && *p <= '9') ||
+               (is_scanf && *p == 'm'))
             p++;
+        /* at most one length modifier: hh h l ll L q j z Z t (C23: wN, wfN) */
+        if (*p == 'h') {
+            p++;
+            if (*p == 'h')
+                p++;
+        } else if (*p == 'l') {
+            p++;
+            if (*p == 'l')
+                p++;
+        } else if (*p == 'L' || *p == 'q' || *p == 'j' || *p == 'z' || *p == 'Z' ||
+                   *p == 't') {
+            p++;
+        } else if (*p == 'w') {
+            p++;
+            if (*p == 'f')
+                p++;
+            while (*p >= '0' && *p <= '9')
+                p++;
+        }
+        /* the conversion character */
         if (*p == 'n')
             return (char *)start;
         if (is_scanf && *p == '[') { /* scanset: may contain 'n' and '%' */
@@ -679,9 +696,7 @@ static inline char *safec_fmt_find_n(const char *fmt, int is_scanf) {
             while (*p && *p != ']')
                 p++;
         }
-        /* the conversion character; a '%' that does not directly follow the introducing '%' is not
-           consumed: an invalid directive such as "%lh" is printed by libc and the next one is live */
-        if (*p && *p != '%')
+        if (*p) /* any other conversion character, '%' included ("%%", "%5%", "%h%") */
             p++;
     }
     return NULL;
@@ -693,21 +708,35 @@ static inline wchar_t *safec_wfmt_find_n(const wchar_t *fmt, int is_scanf) {
         const wchar_t *start;
         if (*p++ != L'%')
             continue;
-        if (*p == L'%') {
-            p++;
-            continue;
-        }
         start = p - 1;
-        /* flags, '*', width, precision, positional argument and length modifiers (incl. glibc's I, ', Z, q and
-           C23's wN), in any order: everything that can stand between '%' and the conversion character */
-        while (*p == L'-' || *p == L'+' || *p == L' ' || *p == L'#' || *p == L'0' || *p == L'*' || *p == L'\'' ||
-               *p == L'.' || *p == L'$' || *p == L'I' || (*p >= L'1' && *p <= L'9') || (is_scanf && *p == L'm') ||
-               *p == L'h' || *p == L'l' || *p == L'L' || *p == L'q' || *p == L'j' || *p == L'z' || *p == L't' ||
-               *p == L'Z' || *p == L'w')
+        /* flags, '*', field width, precision, positional argument: none of these can be a conversion */
+        while (*p == L'-' || *p == L'+' || *p == L' ' || *p == L'#' || *p == L'0' || *p == L'*' ||
+               *p == L'\'' || *p == L'.' || *p == L'$' || *p == L'I' || (*p >= L'1' && *p <= L'9') ||
+               (is_scanf && *p == L'm'))
             p++;
+        /* at most one length modifier: hh h l ll L q j z Z t (C23: wN, wfN) */
+        if (*p == L'h') {
+            p++;
+            if (*p == L'h')
+                p++;
+        } else if (*p == L'l') {
+            p++;
+            if (*p == L'l')
+                p++;
+        } else if (*p == L'L' || *p == L'q' || *p == L'j' || *p == L'z' || *p == L'Z' ||
+                   *p == L't') {
+            p++;
+        } else if (*p == L'w') {
+            p++;
+            if (*p == L'f')
+                p++;
+            while (*p >= L'0' && *p <= L'9')
+                p++;
+        }
+        /* the conversion character */
         if (*p == L'n')
             return (wchar_t *)start;
-        if (is_scanf && *p == L'[') {
+        if (is_scanf && *p == L'[') { /* scanset: may contain 'n' and '%' */
             p++;
             if (*p == L'^')
                 p++;
@@ -716,9 +745,7 @@ static inline wchar_t *safec_wfmt_find_n(const wchar_t *fmt, int is_scanf) {
             while (*p && *p != L']')
                 p++;
         }
-        /* the conversion character; a '%' that does not directly follow the introducing '%' is not
-           consumed: an invalid directive such as "%lh" is printed by libc and the next one is live */
-        if (*p && *p != L'%')
+        if (*p) /* any other conversion character, '%' included ("%%", "%5%", "%h%") */
             p++;
     }
     return NULL;
